@@ -69,7 +69,7 @@ RULES = [
      "fn codepoint_len<B: Copy + PartialOrd<u8>>(b: B) -> usize {"),
     ("R10", "lib.rs",
      "mod vm;\n",
-     "mod vm;\n#[allow(missing_docs, missing_debug_implementations)]\npub mod symtext;\n#[allow(missing_docs, missing_debug_implementations)]\npub mod engine;\n#[allow(missing_docs, missing_debug_implementations)]\npub mod hirmodel;\n#[allow(missing_docs, missing_debug_implementations)]\npub mod refsem;\n#[allow(missing_docs, missing_debug_implementations)]\npub mod corpus;\n#[allow(missing_docs, missing_debug_implementations)]\npub mod props;\n#[allow(missing_docs, missing_debug_implementations)]\npub mod props2;\n#[allow(missing_docs, missing_debug_implementations)]\npub mod props3;\n#[allow(missing_docs, missing_debug_implementations)]\npub mod exprgen;\n#[allow(missing_docs, missing_debug_implementations)]\npub mod unparse;\n#[allow(missing_docs, missing_debug_implementations)]\npub mod symx_api;\n"),
+     "mod vm;\n#[allow(missing_docs, missing_debug_implementations)]\npub mod symtext;\n#[allow(missing_docs, missing_debug_implementations)]\npub mod engine;\n#[allow(missing_docs, missing_debug_implementations)]\npub mod hirmodel;\n#[allow(missing_docs, missing_debug_implementations)]\npub mod refsem;\n#[allow(missing_docs, missing_debug_implementations)]\npub mod corpus;\n#[allow(missing_docs, missing_debug_implementations)]\npub mod props;\n#[allow(missing_docs, missing_debug_implementations)]\npub mod props2;\n#[allow(missing_docs, missing_debug_implementations)]\npub mod props3;\n#[allow(missing_docs, missing_debug_implementations)]\npub mod exprgen;\n#[allow(missing_docs, missing_debug_implementations)]\npub mod unparse;\n#[allow(missing_docs, missing_debug_implementations)]\npub mod symtpl;\n#[allow(missing_docs, missing_debug_implementations)]\npub mod props4;\n#[allow(missing_docs, missing_debug_implementations)]\npub mod symx_api;\n"),
     # ---- lib.rs: the three calls of the wrapped automaton -------------------
     ("R11", "lib.rs",
      "            RegexImpl::Wrap { inner, .. } => Ok(inner\n                .search(&RaInput::new(text).span(pos..text.len()))\n                .map(|m| Match::new(text, m.start(), m.end()))),\n",
@@ -152,6 +152,75 @@ FALLBACKS = {
             "    let bytes_owned = crate::symtext::Text::representative_bytes(s);\n    let bytes: &[u8] = &bytes_owned;\n    loop {\n        ix -= 1;")),
 }
 
+
+# ---- template scanner (C12): expand.rs / parse_id / parse_decimal generic over TStr --------
+# An all-or-nothing group: if any rule does not match, none is applied, the crate is built
+# without the `symx_tpl` feature and the C12 check reports INCONCLUSIVE by itself.
+# (rule id, file, old, new, mode)  mode: "one" exactly once | "all" every occurrence (>= 1)
+TPL_RULES = [
+    ("T1", "expand.rs", "use crate::parse::{parse_decimal, parse_id};\n",
+     "use crate::parse::{parse_decimal, parse_id};\n#[allow(unused_imports)]\nuse crate::symtext::{LitLike, Text};\n#[allow(unused_imports)]\nuse crate::symtpl::{TChar, TCharsAsStr, TStr};\n", "one"),
+    ("T2", "expand.rs", "template: &str", "template: &(impl TStr + ?Sized)", "all"),
+    ("T3", "expand.rs",
+     "fn exec<'t, E>(\n        &self,\n        template: &'t str,\n        mut f: impl FnMut(Step<'t>) -> Result<(), E>,",
+     "fn exec<'t, S: TStr + ?Sized, E>(\n        &self,\n        template: &'t S,\n        mut f: impl FnMut(Step<'t, S>) -> Result<(), E>,", "one"),
+    ("T4", "expand.rs",
+     "enum Step<'a> {\n    Char(char),\n    GroupName(&'a str),",
+     "enum Step<'a, S: TStr + ?Sized> {\n    Char(S::Ch),\n    GroupName(&'a S),", "one"),
+    ("T5", "expand.rs", "Step::Char(self.sub_char)", "Step::Char(<S::Ch as TChar>::from_char(self.sub_char))", "all"),
+    ("T6", "expand.rs", "contains_key(name)", "contains_key(&*name.t_conc())", "all"),
+    ("T7", "expand.rs", "captures.name(name)", "captures.name(&name.t_conc())", "all"),
+    ("T8", "expand.rs",
+     "pub fn escape<'a>(&self, text: &'a str) -> Cow<'a, str> {",
+     "pub fn escape<'a, S: TStr + ?Sized>(&self, text: &'a S) -> Cow<'a, S> {", "one"),
+    ("T10", "parse.rs",
+     "pub(crate) fn parse_decimal(s: &str, ix: usize) -> Option<(usize, usize)> {",
+     "pub(crate) fn parse_decimal<S: crate::symtpl::TStr + ?Sized>(s: &S, ix: usize) -> Option<(usize, usize)> {", "one"),
+    ("T11", "parse.rs", "usize::from_str_radix(&s[ix..end], 10)", "<S as crate::symtpl::TStr>::from_str_radix(&s[ix..end], 10)", "one"),
+    ("T12", "parse.rs",
+     "pub(crate) fn parse_id<'a>(\n    s: &'a str,",
+     "pub(crate) fn parse_id<'a, S: crate::symtpl::TStr + ?Sized>(\n    s: &'a S,", "one"),
+    ("T12b", "parse.rs", ") -> Option<(&'a str, usize)> {", ") -> Option<(&'a S, usize)> {", "one"),
+    ("T13", "parse.rs", "fn is_id_char(c: char) -> bool {", "fn is_id_char<C: crate::symtpl::TChar>(c: C) -> bool {", "one"),
+    ("T14", "parse.rs", "close.starts_with(is_id_char)", "close.starts_with(is_id_char::<char>)", "all"),
+    ("T15", "parse.rs", "fn is_digit(b: u8) -> bool {", "fn is_digit<B: crate::symtext::ByteLike>(b: B) -> bool {", "one"),
+    ("T16", "parse.rs", "use crate::{", "#[allow(unused_imports)]\nuse crate::symtext::{LitLike as _};\n#[allow(unused_imports)]\nuse crate::symtpl::{TChar as _, TStr as _};\nuse crate::{", "first"),
+    ("T20", "lib.rs", "pub fn expand(&self, replacement: &str, dst: &mut String) {",
+     "pub fn expand(&self, replacement: &(impl crate::symtpl::TStr + ?Sized), dst: &mut String) {", "one"),
+]
+
+
+def flip_byte_comparisons(txt):
+    """Inside `fn is_digit`: `b'0' <= b` -> `b >= b'0'` (a symbolic byte is only comparable on
+    the left).  Whatever operators the source uses are kept."""
+    import re
+    m = re.search(r"fn is_digit<B: crate::symtext::ByteLike>\(b: B\) -> bool \{\n(.*?)\n\}", txt, re.S)
+    if not m:
+        return None
+    flip = {"<=": ">=", "<": ">", ">=": "<=", ">": "<", "==": "==", "!=": "!="}
+    body = re.sub(r"(b'[^']+'|\d+) (<=|>=|<|>|==|!=) b\b", lambda k: "b %s %s" % (flip[k.group(2)], k.group(1)), m.group(1))
+    return txt[:m.start(1)] + body + txt[m.end(1):]
+
+
+def apply_template_rules(files):
+    new = dict(files)
+    for rid, fname, old, repl, mode in TPL_RULES:
+        txt = new.get(fname)
+        if txt is None:
+            return None, rid
+        n = txt.count(old)
+        if mode == "one" and n != 1:
+            return None, rid
+        if mode in ("all", "first") and n < 1:
+            return None, rid
+        new[fname] = txt.replace(old, repl, 1) if mode == "first" else txt.replace(old, repl)
+    t = flip_byte_comparisons(new["parse.rs"])
+    if t is None:
+        return None, "T15-body"
+    new["parse.rs"] = t
+    return new, None
+
+
 OPTIONAL = {"I3a", "I3b", "I3c", "I3d", "I3e", "I3f", "I3g", "I3h", "I3i", "I3j"}
 
 
@@ -215,6 +284,13 @@ def main():
             die("source shape changed at %s: pattern occurs %d times in src/%s" % (rid, n, fname))
         files[fname] = files[fname].replace(old, new)
         applied.append(rid)
+    tpl_files, tpl_missing = apply_template_rules(files)
+    template_rules = tpl_files is not None
+    if template_rules:
+        files = tpl_files
+        applied += [r[0] for r in TPL_RULES]
+    else:
+        missing.append("template rules (failed at %s)" % tpl_missing)
     # overlay modules
     for f in sorted(os.listdir(os.path.join(HERE, "overlay"))):
         with open(os.path.join(HERE, "overlay", f)) as fh:
@@ -238,6 +314,11 @@ def main():
     with open(os.path.join(REPO, "Cargo.toml")) as fh:
         cargo = fh.read()
     cargo = cargo.replace('[[bench]]\nname = "bench"\nharness = false\n', "")
+    if 'default = [' not in cargo or "[features]\n" not in cargo:
+        die("Cargo.toml has no [features] default list")
+    cargo = cargo.replace("[features]\n", "[features]\nsymx_tpl = []\n", 1)
+    if template_rules:
+        cargo = cargo.replace('default = [', 'default = ["symx_tpl", ', 1)
     cargo += '\n[[bin]]\nname = "symx"\npath = "src/bin/symx.rs"\n\n[profile.dev]\nopt-level = 1\noverflow-checks = true\ndebug-assertions = true\n\n[profile.release]\noverflow-checks = true\ndebug = false\n\n[workspace]\n'
     p = os.path.join(OUT, "Cargo.toml")
     if not os.path.exists(p) or open(p).read() != cargo:
@@ -251,6 +332,7 @@ def main():
     meta = {
         "rules_applied": applied,
         "helpers_concretised": concretise,
+        "template_rules": template_rules,
         "rules_missing_optional": missing,
         "repo_src_sha256": tree_hash(os.path.join(REPO, "src")),
         "overlay_sha256": tree_hash(os.path.join(HERE, "overlay")),
